@@ -2119,11 +2119,6 @@ let check h o =
           | None -> Ok ())
   | Err e -> Err e
 
-(** val to_dict_has_raw : hobj -> bool **)
-
-let to_dict_has_raw o =
-  is_some o.h_raw
-
 (** val swhid : hobj -> (bytes * bytes) result **)
 
 let swhid o =
